@@ -33,6 +33,7 @@ FIXED = {
     "C23:modifier-leaks-into-next-evaluation": "f472008",
     "C17:str-repeat-overflow-wraps": "a2e5b92",
     "C17:flag-name-panics": "a2537fc",
+    "C17:value-input-from-write-mode-file-port-hangs": "448d719",
     "C17:nil-for-list-or-map-parameter": "ec711ac",
     "C36:del-in-link-destination-written-bare": "562dd02",
     "C18:only-values-stops-draining": "fcd24e6",
